@@ -36,7 +36,7 @@ fn num(r: &mut Rng, cls: &str, lo: f64, hi: f64, grid: f64) -> Num {
             let v = (v * 1e4).round() / 1e4;
             Num { text: format!("{}", v), v: (v * 1e4).round() as i64 }
         }
-        _ => Num { text: pick(r, &["abc", "", "12,5", "1e", "--3", "north", "nan", "NaN", "inf", "-inf", "infinity", "-NaN"]).to_string(), v: 0 },
+        _ => Num { text: pick(r, &["abc", "", "12,5", "1e", "--3", "north", "nan", "NaN", "inf", "-inf", "infinity", "-NaN", "39° 01′ 05.4″ N", "1234567890123456é", "forty-two degrees and a half north ✓✓✓"]).to_string(), v: 0 },
     }
 }
 
@@ -95,10 +95,17 @@ pub fn gen(args: &Args) {
         let pre = s.get(9).and_then(|v| v.as_bool()).unwrap_or(false);
         let lat = num(&mut r, &lat_c, -90., 90., 0.0001);
         let lon = num(&mut r, &lon_c, -180., 180., 0.0001);
-        let gmt = num(&mut r, &gmt_c, -12., 12., 0.5);
+        // zone offsets are not confined to the half-hour grid (5.75, 3.2, local mean time ...)
+    let gmt_grid = *pick(&mut r, &[0.5, 0.5, 0.25, 0.0001]);
+    let gmt = num(&mut r, &gmt_c, -12., 12., gmt_grid);
         let elev = if elev_c == "absent" { Num { text: String::new(), v: 0 } } else { num(&mut r, &elev_c, -420., 8848., 1.) };
         let meth = r.range(0, 8) as usize;
-        let start = date_of_dn(r.range(dn_of(ymd(1600, 1, 1)), dn_of(ymd(2398, 1, 1))));
+        let mut start = date_of_dn(r.range(dn_of(ymd(1600, 1, 1)), dn_of(ymd(2398, 1, 1))));
+        if r.chance(1, 4) {
+            // month / year / leap-day structure incl. the 400-year rule
+            start = *pick(&mut r, &[ymd(2000, 2, 27), ymd(1600, 2, 26), ymd(2024, 2, 27), ymd(1900, 2, 26), ymd(2100, 2, 27),
+                ymd(1999, 12, 30), ymd(2000, 12, 29), ymd(2023, 1, 30), ymd(2000, 2, 29), ymd(2396, 2, 28)]);
+        }
         let span = match r.range(0, 9) {
             0 => 1,
             1 => r.range(300, 400),
